@@ -33,6 +33,7 @@ struct ApiOpts {
 	bool segments = false;           // FO4/FO76: random segmentation
 	bool partitions = false;         // LE/SSE/FO3: random partition assignment
 	bool usedObject = false;         // the NifFile object has held another file before Create() (see useObject)
+	bool tangents = false;           // CalcTangentsForShape on every shape that has normals and UVs (OB: creates the tangent-space extra data on save)
 	bool texturing = false;          // OB/FO3: shapes also get a NiTexturingProperty with source textures in a random subset of the ten slots
 	bool modelSpace = false;         // SK/SSE: shaders use model-space normals (cloning / conversion drop normals and tangents then)
 };
@@ -62,6 +63,11 @@ namespace vf {
 std::string useObject(NifFile& n, Rng& rng);
 // a real sample (with size table) one of whose block types is re-labelled to a name the library does not know
 std::string sampleWithUnknownType(Rng& rng, std::string* desc = nullptr);
+
+// Reorders the vertex map of every skin partition by a seeded permutation and carries the per-vertex partition arrays (weights, bone slots)
+// and, where the partition's faces index the map (OB/FO3/SK), its triangles and strips along: the same partitions, written the way game files
+// written by other tools have them (vertex maps are not sorted there).  Returns the number of partitions changed.
+int permutePartitionVertexMaps(NifFile& nif, Rng& rng);
 
 // attaches a NiTexturingProperty whose slots (a seeded subset of the ten, never empty) name fresh NiSourceTexture blocks; OB / FO3 models
 void addTexturingProperty(NifFile& nif, NiShape* shape, Rng& rng, const std::vector<std::string>& paths);
